@@ -72,6 +72,7 @@ pub struct Gen {
     pub next_fresh: u64,
     pub step: usize,
     pub since_dump: usize,
+    pub probes_left: usize,
 }
 
 const THRESHOLDS: [usize; 12] = [3, 7, 14, 28, 56, 112, 224, 448, 896, 1792, 3584, 7168];
@@ -82,7 +83,7 @@ impl Gen {
         let ths: Vec<usize> = THRESHOLDS.iter().copied().filter(|t| *t <= max_len.max(3)).collect();
         let base = *rng.pick(&ths);
         let target = (base as i64 + rng.below(5) as i64 - 1).max(1) as usize;
-        Gen { rng, slice, target, next_fresh: 0, step: 0, since_dump: 0 }
+        Gen { rng, slice, target, next_fresh: 0, step: 0, since_dump: 0, probes_left: 3 }
     }
 
     fn fresh(&mut self) -> u64 {
@@ -265,7 +266,7 @@ impl Gen {
                     return (0, Op::Insert { k: self.fresh(), v: 1 });
                 }
                 let n = self.boundary(w, 0);
-                return match d % 12 {
+                return match d % 14 {
                     0 | 1 => (0, Op::TryReserve { n }),
                     2 => {
                         // an infallible reserve must not be asked for something that would abort
@@ -281,6 +282,7 @@ impl Gen {
                         let c = *self.rng.pick(&[0usize, 1, 3, 4, 7, 8, 14, 15, 28, 29, 56, 57, 100, 1000]);
                         (1, Op::New { cap: c, seed: 0 })
                     }
+                    10 | 11 if len < 600 && self.probes_left > 0 => { self.probes_left -= 1; (0, Op::FillProbe { start: 1_000_000 + self.next_fresh * 16 + self.rng.below(1000) }) }
                     _ => (0, Op::Insert { k: self.fresh(), v: 1 }),
                 };
             }
@@ -294,7 +296,7 @@ impl Gen {
             Slice::Entry => &[(10, 0), (5, 1), (5, 3), (40, 6), (3, 7), (2, 9), (2, 10), (3, 11), (2, 12)],
             Slice::Iter => &[(12, 0), (3, 1), (6, 3), (3, 6), (14, 7), (14, 8), (6, 13), (14, 11), (6, 12), (3, 9), (2, 10), (2, 16)],
             Slice::Clone => &[(12, 0), (4, 1), (6, 3), (4, 6), (4, 7), (16, 14), (12, 15), (8, 17), (10, 18), (3, 9), (2, 10)],
-            _ => &[(14, 0), (6, 1), (8, 2), (10, 3), (4, 4), (5, 5), (12, 6), (5, 7), (5, 8), (3, 9), (3, 10), (5, 11), (3, 12), (1, 13), (3, 14), (2, 15), (1, 16), (2, 17), (3, 18), (2, 19)],
+            _ => &[(14, 0), (6, 1), (8, 2), (10, 3), (4, 4), (5, 5), (12, 6), (5, 7), (5, 8), (3, 9), (3, 10), (5, 11), (3, 12), (1, 13), (3, 14), (2, 15), (1, 16), (2, 17), (3, 18), (2, 19), (2, 20)],
         };
         let total: u32 = weights.iter().map(|x| x.0).sum();
         let mut pick = self.rng.below(total as u64) as u32;
@@ -372,6 +374,8 @@ impl Gen {
                     (1, Op::New { cap: self.rng.below(40) as usize, seed: self.rng.below(1000) })
                 }
             }
+            20 if len < 600 && self.probes_left > 0 => { self.probes_left -= 1; (0, Op::FillProbe { start: 1_000_000 + self.next_fresh * 16 + self.rng.below(1000) }) }
+            20 => (0, Op::Dump),
             _ => {
                 let n = 1 + self.rng.below(12);
                 let mut items = vec![];
